@@ -301,3 +301,46 @@ Example one_winner_example :
 Proof. reflexivity. Qed.
 Example pre_hash_example : pre_hash [1;2;3;4;5]%N [16;32]%N = be32 [20;34;3;4]%N.
 Proof. reflexivity. Qed.
+
+(* with one shared slot the placement of presentations over services, listeners and reload
+   generations is irrelevant: the outcomes are those of the single cache on the plain sequence *)
+Lemma shared_cache_placement_irrelevant_lemma ref r0 pl : forall st,
+  (forall sv, ref sv = r0) ->
+  snd (prun ref st pl) = snd (run (st r0) (map snd pl)) /\
+  fst (prun ref st pl) r0 = fst (run (st r0) (map snd pl)).
+Proof.
+  induction pl as [|[sv o] r IH]; intros st Hr; cbn [prun run map snd fst]; [split; reflexivity|].
+  rewrite Hr. destruct (step (st r0) o) as [c' out] eqn:S.
+  specialize (IH (supd st r0 c') Hr).
+  destruct (prun ref (supd st r0 c') r) as [st' outs] eqn:P. cbn [fst snd] in *.
+  assert (E : supd st r0 c' r0 = c') by (unfold supd; rewrite Nat.eqb_refl; reflexivity).
+  rewrite E in IH. destruct (run c' (map snd r)) as [c'' outs'] eqn:R. cbn [fst snd] in *.
+  destruct IH as [I1 I2]. split; [f_equal; exact I1 | exact I2].
+Qed.
+
+(* a handshake first seen by service a is refused when replayed to ANY service b of any
+   generation, within the window *)
+Lemma cross_service_replay_refused_lemma W ref r0 st h a b mid :
+  (forall sv, ref sv = r0) ->
+  1 <= W -> caps_ge W (st r0) (Add h :: map snd mid) -> adds (map snd mid) <= W ->
+  last (snd (prun ref st ((a, Add h) :: mid ++ [(b, Add h)]))) true = false.
+Proof.
+  intros Hr HW Hc Ha.
+  rewrite (proj1 (shared_cache_placement_irrelevant_lemma ref r0 _ st Hr)).
+  cbn [map snd]. rewrite map_app. cbn [map snd].
+  pose proof (replay_refused_within_N_lemma W (st r0) h (map snd mid) HW Hc Ha) as R.
+  (* run over (Add h :: mid ++ [Add h]) ends with the output of the final step *)
+  assert (G : forall ops c o, last (snd (run c (ops ++ [o]))) true = snd (step (fst (run c ops)) o)).
+  { clear. induction ops as [|x r IH]; intros c o; cbn [app run fst snd].
+    - destruct (step c o) as [c' out]. cbn. reflexivity.
+    - destruct (step c x) as [c1 o1]. specialize (IH c1 o).
+      destruct (run c1 (r ++ [o])) as [c2 outs] eqn:R2. destruct (run c1 r) as [c3 outs3] eqn:R3. cbn [fst snd] in *.
+      destruct outs as [|y ys]; [|exact IH].
+      (* outs cannot be empty: r ++ [o] is not *)
+      exfalso. clear - R2. revert c1 R2. induction r as [|z r IHr]; intros c1 R2; cbn [app run] in R2.
+      + destruct (step c1 o); inversion R2.
+      + destruct (step c1 z) as [c4 o4]. destruct (run c4 (r ++ [o])) eqn:R5. inversion R2. }
+  change (Add h :: map snd mid ++ [Add h]) with ((Add h :: map snd mid) ++ [Add h]).
+  rewrite G. cbn [run]. destruct (step (st r0) (Add h)) as [c1 o1] eqn:S1. cbn [fst] in R.
+  destruct (run c1 (map snd mid)) as [c2 outs2]. cbn [fst snd] in *. exact R.
+Qed.
